@@ -220,7 +220,7 @@ def c08(tier, seed, replay=None):
     # (threads2small: a nested differentiation in one thread while another thread enters and leaves traces - level allocation must not
     #  be confused by foreign traces either; the full thread exploration is C20's)
     fams = [("nest", 2, None), ("nestq", 3, 1000) if q else ("nest", 3, None), ("fault", 2, None), ("ho", 3 if q else 4, None),
-            ("threads2small", 2, 250 if q else 2000)]
+            ("threads2small", 2, 250 if q else 2000), ("mix", 2, None)]
     muts = [("nest", 2, MUT_GEQ), ("nest", 2, MUT_DEP), ("fault", 2, MUT_RESET)]
     t0 = time.time()
     v1, cov = run_agm("C08", tier, seed, fams, muts,
